@@ -26,7 +26,7 @@ func init() { register(c15{}) }
 
 func (c15) ID() string { return "C15" }
 func (c15) Rule() string {
-	return "the real gts binary (--no-cache) is run on generated GenBank records (20..60 residues that are pairwise distinct complement-invariant printable ids, 0..7 uniquely labelled features over ranges/points/joins/complements, linear and circular) and on the phiX174 corpus record, with locators built from points, ranges, complement(range), selectors by key and /label regexp matching 0..k features, each optionally with a modifier that stays in range (for gts rotate and single-cut gts split on circular records also positions before residue 1 or after the last residue, which wrap); commands delete [-e], insert [-e] (literal and file guests), infix [-e], split, rotate, extract [-v], each also with -F fasta. stdout is parsed back with seqio. Every third case is also run with the cache on, after the sibling invocation (-e or -v toggled; rotate for split and split for rotate) on the same input over the same cache directory, twice: it must print what the --no-cache run printed. The located regions are obtained from the same locator through the library (locator semantics are C08's); the expected output is computed by the model from the regions: delete -> residues minus the union, one record, features = image under the deletion of the maximal runs; insert/infix -> one guest copy per located region at its Head() in input coordinates, features = image under the insertions; split -> pieces concatenate to the input (circular: to the input rotated to a cut), cut set = one acceptable position per region (Head, or the lower coordinate for reverse-strand regions), fragments of each feature together cover its residues; rotate -> first located Head at index 0, features cyclically shifted; extract -> one record per distinct region shorter than the record (a single region as long as the record is don't-care), residues = model extraction, every feature of an extracted record denotes exactly the residues (distinct ids) its input feature denotes inside the region, -v -> the maximal unlocated stretches (the whole record when nothing is located). non-trivial: >=2 located regions, or regions that overlap/nest/abut/are unsorted; distinct: (command line, input record). For bare selectors the harness wrote on generated records the located regions must be those of the selected features, part for part and strand for strand; every cached twin also follows the same command asked for the other output format. gts infix with a host file holding all records of a stream and one guest prints the concatenation of what it prints for each host alone."
+	return "the real gts binary (--no-cache) is run on generated GenBank records (20..60 residues that are pairwise distinct complement-invariant printable ids, 0..7 uniquely labelled features over ranges/points/joins/complements, linear and circular) and on the phiX174 corpus record, with locators built from points, ranges, complement(range), selectors by key and /label regexp matching 0..k features, each optionally with a modifier that stays in range (for gts rotate and single-cut gts split on circular records also positions before residue 1 or after the last residue, which wrap); commands delete [-e], insert [-e] (literal and file guests), infix [-e], split, rotate, extract [-v], each also with -F fasta. stdout is parsed back with seqio. Every third case is also run with the cache on, after the sibling invocation (-e or -v toggled; rotate for split and split for rotate) on the same input over the same cache directory, twice: it must print what the --no-cache run printed. The located regions are obtained from the same locator through the library (locator semantics are C08's); the expected output is computed by the model from the regions: delete -> residues minus the union, one record, features = image under the deletion of the maximal runs; insert/infix -> one guest copy per located region at its Head() in input coordinates, features = image under the insertions; split -> pieces concatenate to the input (circular: to the input rotated to a cut), cut set = one acceptable position per region (Head, or the lower coordinate for reverse-strand regions), fragments of each feature together cover its residues; rotate -> first located Head at index 0, features cyclically shifted; extract -> one record per distinct region shorter than the record (a single region as long as the record is don't-care), residues = model extraction, every feature of an extracted record denotes exactly the residues (distinct ids) its input feature denotes inside the region, -v -> the maximal unlocated stretches (the whole record when nothing is located). non-trivial: >=2 located regions, or regions that overlap/nest/abut/are unsorted; distinct: (command line, input record). For bare selectors the harness wrote on generated records the located regions must be those of the selected features, part for part and strand for strand; every cached twin also follows the same command asked for the other output format. gts infix with a host file holding all records of a stream and one guest prints the concatenation of what it prints for each host alone. An eighth of the generated records name a CONTIG and carry residues; bare-modifier locators ($-5..$, ^+2..$-3, ...) on single records and streams."
 }
 func (c15) Assumptions() []string {
 	return []string{"seqio's scanner as the reader of gts output (itself the subject of C01/C07/C16/C17)", "the library's AsLocator for which regions a locator denotes (subject of C08)", "Go toolchain; harness models"}
@@ -133,6 +133,11 @@ func c15Generate(r *rand.Rand) (*c15rec, error) {
 		Date: seqio.Date{Year: 2021, Month: 3, Day: 4}, Definition: "generated", Accession: "GEN0001", Version: "GEN0001.1",
 		Source: seqio.Organism{Species: "synthetic construct", Name: "synthetic construct", Taxon: []string{"other sequences"}}},
 		Table: gen.SortedTable(tab), Origin: seqio.NewOrigin(gen.UniqueBytes(0, L))}
+	if r.Intn(8) == 0 {
+		// a record that names the CONTIG it was assembled from and carries the
+		// residues as well.
+		gb.Fields.Contig = seqio.Contig{Accession: "U00096.3", Region: gts.Segment{0, L}}
+	}
 	return c15Parse([]byte(gb.String()), false)
 }
 
@@ -457,7 +462,7 @@ func (x *c15run) one(rec *c15rec, cmd string, flags []string, locstr string, r *
 	// a bare selector the harness wrote itself (key, /label=regexp,
 	// key/label=regexp) on a generated record: the located regions are those of
 	// the matching features, part for part and strand for strand, in table order.
-	if !rec.corpus && loc2 == "" && !strings.Contains(locstr, "@") && !strings.ContainsAny(locstr[:1], "0123456789c") {
+	if !rec.corpus && loc2 == "" && !strings.Contains(locstr, "@") && !strings.ContainsAny(locstr[:1], "0123456789c^$") {
 		key, pat := locstr, ""
 		if i := strings.Index(locstr, "/label="); i >= 0 {
 			key, pat = locstr[:i], locstr[i+len("/label="):]
@@ -1189,6 +1194,10 @@ func c15Locator(r *rand.Rand, rec *c15rec) string {
 		}
 	default:
 		x = "/label=nomatch"
+	}
+	if r.Intn(12) == 0 {
+		// a bare modifier: a stretch of the whole record, counted from either end.
+		return []string{"$-5..$", "^..^+4", "^+2..$-3", "$-1", "^+3", "$-8..$-2"}[r.Intn(6)]
 	}
 	if r.Intn(3) == 0 {
 		mods := []string{"^", "$", "^..$", "^+1..$-1", "^..^+2", "$-2..$", "^-1..$+1", "^+1", "$-1", "^-5", "^-3..$", "$+4"}
